@@ -9,7 +9,7 @@
 From Coq Require Import Permutation Sorting.Sorted.
 From GoCar Require Import Bytes Varint Cid Header Frame V2Header Scan Index IndexGen Transform.
 From GoCarProofs Require Import BytesFacts VarintFacts CidFacts HeaderFacts ScanFacts IndexSort IndexLoad
-  IndexGenFacts TransformFacts TransformWrap TransformReplace TransformIndexGen TransformExamples.
+  IndexGenFacts TransformFacts TransformWrap TransformReplace TransformIndexGen TransformSeq TransformExamples.
 
 (* [srt] is what sort.Sort does inside an index bucket (unstable: the order inside a run of equal
    digests is unspecified).  The layout theorems hold for EVERY function srt; the index-correctness
@@ -273,6 +273,82 @@ Theorem C10_extract_wrap :
     r = XOk /\ dst_content s' = Some x /\ (dst <> DSame -> f_src s' = Some w).
 Proof. exact extract_wrap. Qed.
 Print Assumptions C10_extract_wrap.
+
+(* the destination PATH: a symlink to the source, a hard link, an unnormalised or a relative
+   spelling of it are the same FILE, and the code never compares path strings: every such alias gets
+   exactly the in-place semantics of the theorems above (destination state DSame) *)
+Theorem C10_extract_in_place_through_alias :
+  forall p, (forall d, p <> POther d) -> resolve_dest p = DSame.
+Proof. exact resolve_alias. Qed.
+Print Assumptions C10_extract_in_place_through_alias.
+
+(* a CARv1 as the source of ExtractV1File: ErrAlreadyV1, nothing created or modified, for every
+   constructed CARv1 the options can read and every destination *)
+Theorem C10_extract_carv1_source :
+  forall hdrdec csz o roots bs dst,
+    hdr_good hdrdec roots -> blen (enc_header (Some roots) 1) <= x_maxh o ->
+    blen (enc_header (Some roots) 1) < two63 ->
+    extract_file hdrdec csz o (mkfs (Some (enc_payload roots bs)) dst)
+    = (XAlreadyV1, mkfs (Some (enc_payload roots bs)) dst).
+Proof. exact extract_carv1_source. Qed.
+Print Assumptions C10_extract_carv1_source.
+
+(* ---- attach index -------------------------------------------------------------------------------- *)
+(* AS FOUND, AttachIndex fails for EVERY input (O_APPEND + WriteAt) and attaches nothing; an absent
+   file is created empty.  Repaired by notes/fixes/C10-attachindex-append.patch. *)
+Theorem C10_attach_index_refuted_as_found :
+  forall f i off,
+    attach_index_as_found f i off = (Err EOther, Some (match f with Some a => a | None => [] end)).
+Proof. exact attach_as_found_never_attaches. Qed.
+Print Assumptions C10_attach_index_refuted_as_found.
+
+(* repaired: for every file (absent = empty), index and int64 offset, exactly the serialized index
+   is written at the offset (zero-filled gap past the end), nothing else changes; a negative int64
+   offset is refused and nothing changes *)
+Theorem C10_attach_index :
+  forall f i off,
+    attach_index f i off
+    = if two63 <=? off then (Err EOther, Some (match f with Some a => a | None => [] end))
+      else (Ok tt, Some (write_at (match f with Some a => a | None => [] end) off (idx_write i))).
+Proof. exact (fun f i off => eq_refl). Qed.
+Print Assumptions C10_attach_index.
+
+(* at or after the end of a CARv2's data payload: pragma, header and payload window are untouched,
+   and index.ReadFrom at the offset yields the index (for every index that is the result of a read) *)
+Theorem C10_attach_index_preserves_payload :
+  forall a i off h s rest0,
+    off < two63 -> off <= blen a -> 51 <= h_doff h -> h_doff h + h_dsize h <= off ->
+    idx_read s = Ok (i, rest0) ->
+    exists a', attach_index (Some a) i off = (Ok tt, Some a') /\
+               take 51 a' = take 51 a /\ payload_window h a' = payload_window h a /\
+               idx_read (drop off a') = Ok (i, drop (off + blen (idx_write i)) a).
+Proof. exact attach_index_preserves_payload. Qed.
+Print Assumptions C10_attach_index_preserves_payload.
+
+(* ---- composition ------------------------------------------------------------------------------------ *)
+(* ANY finite sequence of transforms applied to one file -- WrapV1 into a fresh file, ExtractV1File
+   in place, ReplaceRootsInFile, AttachIndex -- starting from a constructed CARv1 with blocks bs,
+   whatever each step's options and outcome (success or error), leaves a file from which peeling the
+   CARv2 containers reaches a CARv1 whose section bytes are exactly those of bs.  By induction over
+   the sequence on the model the harness runs ([xrun]).  What the caller must respect is the
+   executable [seq_guard]: an AttachIndex offset at or after the end of the data payload of the CARv2
+   it is applied to, and file sizes within int64; replacement roots must encode to a header the
+   decoder reads as version 1. *)
+Theorem C10_sequence_preserves_blocks :
+  forall hdrdec srt csz,
+    (forall k, 0 < csz k) -> (exists rs, hdrdec pragma_body = Some (rs, 2)) ->
+  forall bs ops roots,
+    ((exists rs, hdrdec (enc_header (Some roots) 1) = Some (rs, 1)) /\ blen (enc_header (Some roots) 1) < two63) ->
+    Forall (fun op => match op with
+                      | OReplace _ r => (exists rs, hdrdec (enc_header r 1) = Some (rs, 1)) /\
+                                        blen (enc_header r 1) < two63
+                      | _ => True
+                      end) ops ->
+    seq_guard hdrdec srt csz ops (enc_payload roots bs) = true ->
+    exists n, innermost_sections hdrdec n (snd (xrun hdrdec srt csz ops (enc_payload roots bs)))
+              = Some (enc_sections bs).
+Proof. exact xrun_preserves_blocks. Qed.
+Print Assumptions C10_sequence_preserves_blocks.
 
 (* ---- replace roots ---------------------------------------------------------------------------- *)
 (* for EVERY file a (valid or not, CARv1 or CARv2), every root list and options: an error leaves
